@@ -41,8 +41,12 @@ def checkParaCalls (text : List Int) (od : Options Int) (fid : Nat) (out : List 
         if exp != out then "fail:C11 returned paragraphs are not spliced in place with the separator" else "ok"
 
 /-- the per-paragraph operation X₁ (non-paragraph mode, on the model) -/
-def perPara (op : String) (args : List String) (od : Options Int) (para : List Int) : Option (List Int) :=
-  let o1 := { od with preservePara := false }
+def perPara (op : String) (args : List String) (od : Options Int) (para : List Int)
+    (paraMode : Bool := false) : Option (List Int) :=
+  -- `paraMode`: the single paragraph is run through the same paragraph-mode operation (used under
+  -- NoTrailingLineSeparators, where the non-paragraph operation treats an empty text as one line
+  -- while paragraph mode has no line to work on; seeded change C11l)
+  let o1 := { od with preservePara := paraMode }
   let ed : Ed := .root para o1
   match op, args with
   | "wrap", [w] => do
@@ -64,7 +68,6 @@ def perPara (op : String) (args : List String) (od : Options Int) (para : List I
 def checkHomomorphism (op : String) (args : List String) (text : List Int) (od : Options Int)
     (out : List Int) : String :=
   if !od.preservePara then "skip:not-paragraph-mode"
-  else if od.noTrailing then "skip:non-default-trailing-policy"
   else if !madeOfLineSeps od.paraSep od.lineSep then
     -- outside the homomorphism's domain; separators must still all be kept
     let k := (splitOn text od.paraSep).length
@@ -74,7 +77,7 @@ def checkHomomorphism (op : String) (args : List String) (text : List Int) (od :
     match paraCalls (.root text od) od with
     | .error _ => "skip:model-error"
     | .ok cs =>
-      match cs.mapM fun (p, _, _) => perPara op args od p with
+      match cs.mapM fun (p, _, _) => perPara op args od p od.noTrailing with
       | none => "skip:per-paragraph-error"
       | some rs =>
         let exp := joinWith od.paraSep rs
